@@ -53,6 +53,10 @@ def run(key):
     model, K, N, lead = c['model'], c['K'], c['N'], c['lead']
     if c['empty_class']:
         return trivial('start has a class without mass')
+    if N < 2 * K:
+        return trivial('fewer than 2K frames: parameters are not identified (ties / collapsed classes)')
+    if p['aligner'] == 'builtin' and 0.0 in p['streamw']:
+        return trivial('built-in alignment with a zero stream weight: every permutation ties exactly')
     shape = lead + (K, N)
     init = np.broadcast_to(c['init'], shape).copy() if p['start'] != 'soft_singleton' else c['init']
     opts = dict(c['opts'])
@@ -93,8 +97,10 @@ def run(key):
         bad = tol.mismatch(w2, w1[..., perm, :], rt, what=f'{model} weights under relabelling {perm}')
         if bad:
             return viol(bad)
+        if model == 'cbmm' and max(np.abs(m_.complex_bingham.covariance_eigenvalues).max() for m_ in (m1, m2)) > 1e6:
+            return trivial('Bingham concentration > 1e6: numerically rank-deficient class scatter')
         for name in f1:
-            if name == 'weight':
+            if name == 'weight' or (name == 'cacg_logeig' and c['single']):
                 continue
             ax = class_axis(name, f1[name], model, m1)
             want = np.take(f1[name], perm, axis=ax)
